@@ -80,6 +80,16 @@ def configure(prog, rep, tag):
         dom = checked.get(fld)
         ok = dom is not None and all(s.bb in dom for s in sends) and bool(hasdc) and all(bi in dom for bi, _, _ in hasdc)
         rep.ob(P, "range-check:%s%s" % (fld, tag), ok, "%s passes u32::try_from(as_nanos())? before any register write and before the group is returned" % fld, loc=b.span)
+    # the SYNC1 period is a 32 bit register value too: it must pass u32::try_from before it is written
+    s1 = None
+    for c in tf:
+        r = pr.of_operand(c.args[0])
+        if any(x[0] == "field" and x[-1] == "sync1_period" for x in r):
+            tr = q.ok_edge_of_try(b, c)
+            if tr and tr[1] is not None and "u32" in b.local_ty(c.dest["l"]):
+                s1 = q.edge_dominated(b, tr[0], tr[1])
+    s1_sends = [s_ for s_ in sends if "DcSync1CycleTime" in _reg_of(b, s_)]
+    rep.ob(P, "range-check:sync1_period" + tag, s1 is not None and len(s1_sends) == 1 and s1_sends[0].bb in s1, "sync1_period passes u32::try_from(as_nanos())? before it is written to DcSync1CycleTime (a 4 byte register: a larger value would spill into the latch control registers behind it)", loc=b.span)
     # HasDc carries the checked values
     if hasdc:
         s = hasdc[0][2]
